@@ -18,6 +18,7 @@ from mc.core import Acc, Violation
 from mc.ref.tdc import ref_qvalues, ref_labels
 
 PROPERTY = "C01"
+SIZE_MODULES = ['mokapot.qvalues']  # see mc.runner._sized_passes
 LEVEL = "exploration"
 RULE = (
     "cases = (weak ordering of n positions as rank tuple, label vector, direction), enumerated "
